@@ -217,7 +217,7 @@ fn strategy() -> impl Strategy<Value = BOp> {
 
 pub fn parts(ctx: &mut Ctx) {
     let len = ctx.scale(5, 6);
-    let n = ctx.scale(12_000, 200_000);
+    let n = ctx.scale(12_000, 400_000);
     let alpha = vec![BOp::Set(0), BOp::Set(30000), BOp::Set(65535), BOp::ResetNext, BOp::ResetAll];
     driver::parts::<BitSetSut>(ctx, alpha, len + 1, 1, &[0, 1, 2, 3, 9], &[0, 1, 2, 3, 4, 9, 20], strategy(), n);
     let calpha = vec![BOp::Set(0), BOp::Set(30000), BOp::Set(65535), BOp::ResetAll];
